@@ -195,30 +195,21 @@ fn replay(universe: &str, out_path: &str, modes: &[String]) -> anyhow::Result<()
         eval.set_loader(&loader);
         eval.eval_module(pre_ast.clone(), &globals)
             .map_err(|e| anyhow::anyhow!("prelude: {}", e))?;
-        // fresh values
-        let mut fresh: Vec<Option<Value>> = Vec::new();
+        // fresh values: each construction path is bound to a module global, so that the value stays
+        // rooted while later statements run (a collection may happen at any top-level statement);
+        // the values are fetched only after the last statement has been evaluated.
+        let mut fresh_ok: Vec<Result<(), String>> = Vec::new();
         for (n, r) in reps.iter().enumerate() {
-            let res = util::catch(|| -> Result<Value, String> {
-                let ast = parse(&r.src)?;
-                eval.eval_module(ast, &globals).map_err(|e| format!("{}", e))
+            let res = util::catch(|| -> Result<(), String> {
+                let ast = parse(&format!("F_{} = {}", n, r.src))?;
+                eval.eval_module(ast, &globals).map_err(|e| format!("{}", e))?;
+                Ok(())
             });
-            match res {
-                Ok(Ok(v)) => {
-                    out.write(&json!({"k": "rep", "r": n, "val": r.val, "path": r.path, "src": r.src,
-                                      "ty": v.get_type(), "repr": v.to_repr(), "ok": true}))?;
-                    fresh.push(Some(v));
-                }
-                Ok(Err(e)) => {
-                    out.write(&json!({"k": "rep", "r": n, "val": r.val, "path": r.path, "src": r.src,
-                                      "ok": false, "msg": e}))?;
-                    fresh.push(None);
-                }
-                Err(p) => {
-                    out.write(&json!({"k": "rep", "r": n, "val": r.val, "path": r.path, "src": r.src,
-                                      "ok": false, "msg": format!("panic: {}", p)}))?;
-                    fresh.push(None);
-                }
-            }
+            fresh_ok.push(match res {
+                Ok(Ok(())) => Ok(()),
+                Ok(Err(e)) => Err(e),
+                Err(p) => Err(format!("panic: {}", p)),
+            });
         }
         // frozen, loaded values
         let mut frz: Vec<Option<Value>> = vec![None; reps.len()];
@@ -235,6 +226,21 @@ fn replay(universe: &str, out_path: &str, modes: &[String]) -> anyhow::Result<()
                     }
                 }
                 Err(e) => out.write(&json!({"k": "frozen_error", "msg": format!("{}", e)}))?,
+            }
+        }
+        let mut fresh: Vec<Option<Value>> = Vec::new();
+        for (n, r) in reps.iter().enumerate() {
+            match (&fresh_ok[n], module.get(&format!("F_{}", n))) {
+                (Ok(()), Some(v)) => {
+                    out.write(&json!({"k": "rep", "r": n, "val": r.val, "path": r.path, "src": r.src,
+                                      "ty": v.get_type(), "repr": v.to_repr(), "ok": true}))?;
+                    fresh.push(Some(v));
+                }
+                (e, _) => {
+                    out.write(&json!({"k": "rep", "r": n, "val": r.val, "path": r.path, "src": r.src, "ok": false,
+                                      "msg": match e { Err(m) => m.clone(), Ok(()) => "global missing".to_owned() }}))?;
+                    fresh.push(None);
+                }
             }
         }
         let fns: Vec<Value> = OBS.iter().map(|f| module.get(f).unwrap()).collect();
@@ -310,7 +316,22 @@ fn replay(universe: &str, out_path: &str, modes: &[String]) -> anyhow::Result<()
                 .map_err(|e| anyhow::anyhow!("prelude: {}", e))?;
             let f_sorted = module.get("o_sorted").unwrap();
             let heap = module.heap();
-            let mut cache: HashMap<usize, Option<Value>> = HashMap::new();
+            // bind every value that occurs in a list to a global first (rooted), fetch afterwards;
+            // from here on only eval_function runs (no top-level statement, hence no collection)
+            let mut used_vals: Vec<usize> = sorts.iter().flatten().copied().collect();
+            used_vals.sort();
+            used_vals.dedup();
+            for i in &used_vals {
+                if let Some(src) = first_src.get(i) {
+                    let _ = util::catch(|| {
+                        parse(&format!("S_{} = {}", i, src))
+                            .ok()
+                            .and_then(|ast| eval.eval_module(ast, &globals).ok())
+                    });
+                }
+            }
+            let cache: HashMap<usize, Option<Value>> =
+                used_vals.iter().map(|i| (*i, module.get(&format!("S_{}", i)))).collect();
             while next < sorts.len() {
                 let sn = next;
                 next += 1;
@@ -318,19 +339,7 @@ fn replay(universe: &str, out_path: &str, modes: &[String]) -> anyhow::Result<()
                 let mut vals: Vec<Value> = Vec::new();
                 let mut bad = false;
                 for i in idx {
-                    let v = match cache.get(i) {
-                        Some(v) => *v,
-                        None => {
-                            let v = first_src.get(i).and_then(|src| {
-                                util::catch(|| parse(src).ok().and_then(|ast| eval.eval_module(ast, &globals).ok()))
-                                    .ok()
-                                    .flatten()
-                            });
-                            cache.insert(*i, v);
-                            v
-                        }
-                    };
-                    match v {
+                    match cache.get(i).copied().flatten() {
                         Some(v) => vals.push(v),
                         None => bad = true,
                     }
